@@ -380,7 +380,7 @@ def run_check(pid, units, tier, seed, level, notes=None, checker_cmd=None, assum
             _UNITS = list(units)           # inherited by the forked workers (contracts hold closures and cannot be pickled)
             futs = [ex.submit(_run_unit_idx, i, ctx) for i in range(len(units))]
             # watchdog: a solver that does not honour its budget must not hang the check (seen once: z3's Diophantine handler ran for hours)
-            limit = float(os.environ.get("VERIF_UNIT_LIMIT_S", 2400 if tier == "quick" else 4 * 3600))
+            limit = float(os.environ.get("VERIF_UNIT_LIMIT_S", 1500 if tier == "quick" else 4 * 3600))
             deadline = time.time() + limit
             for u, f in zip(units, futs):
                 try:
